@@ -35,7 +35,7 @@ func init() {
 			"the unexported Header.bloom is neither transported nor hashed and is not considered content",
 			"a panic provoked by a FORGED part (negative index) is property C16's subject: counted as probe c16-forged-part-panic/..., not raised here",
 		},
-		QuickRuns: 30000, QuickBudget: 50 * time.Second,
+		QuickRuns: 20000, QuickBudget: 50 * time.Second,
 		ThoroughRuns: 250000, ThoroughBudget: 14 * time.Minute,
 		RunsPerProcess: 1000,
 		Run:            run,
